@@ -1,29 +1,30 @@
 #!/usr/bin/env bash
 # usage: tools/confirm_seed.sh Cxx   -- confirms an agent-produced change in its scratch worktree /tmp/mut_Cxx
 # (1) suite passes with the change, (2) demo fails with it, (3) demo passes without it.
+# Toggles with git apply / git apply -R (the worktrees share one stash, so git stash is not safe in parallel).
 set -u
 ID="$1"; W=/tmp/mut_$ID; O=/tmp/mut_${ID}_out
 cd "$W" || exit 2
 export CARGO_TARGET_DIR="$W/target"
 R="$O/confirm.txt"; : > "$R"
-git diff --quiet && { echo "no change in worktree" >> "$R"; exit 2; }
-if ! diff <(git diff) "$O/patch.diff" >/dev/null; then echo "NOTE: worktree diff differs from patch.diff" >> "$R"; fi
+git checkout -q -- . ; rm -rf tests
+git apply "$O/patch.diff" || { echo "patch.diff does not apply to a clean checkout" >> "$R"; cat "$R"; exit 2; }
 suite=$(cargo test --workspace --no-fail-fast --offline 2>&1 | grep -E "^test result" | tr '\n' ' ')
 echo "suite_with_change: $suite" >> "$R"
 mkdir -p tests
 if [ -f "$O/demo.rs" ]; then
   cp "$O/demo.rs" tests/demo.rs
   cargo test --offline --test demo >"$O/confirm_demo_with.log" 2>&1; a=$?
-  git stash -q -- src
+  git apply -R "$O/patch.diff"
   cargo test --offline --test demo >"$O/confirm_demo_without.log" 2>&1; b=$?
-  git stash pop -q
+  git apply "$O/patch.diff"
   rm -rf tests
   echo "demo_with_change_exit=$a demo_without_change_exit=$b" >> "$R"
 elif [ -f "$O/demo.sh" ]; then
   bash "$O/demo.sh" >"$O/confirm_demo_with.log" 2>&1; a=$?
-  git stash -q -- src
+  git apply -R "$O/patch.diff"
   bash "$O/demo.sh" >"$O/confirm_demo_without.log" 2>&1; b=$?
-  git stash pop -q
+  git apply "$O/patch.diff"
   echo "demo_with_change_exit=$a demo_without_change_exit=$b" >> "$R"
 else
   echo "no demo found" >> "$R"
